@@ -252,6 +252,9 @@ def run(ctx) -> None:
                                 bad, ok, msg = [], True, ""
                             else:
                                 ok, msg = False, f"the element replaced at `{key}` was tested with `{ftxt[:60]}`, which is not the partner predicate"
+                        elif first == f"{OUT}[{key}]" and c.get(f"isinstance({first}, tuple)") is False and c.get(f"{first}.is_moved_from") is True and (c.get(f"{first}.cookie == REC.cookie") is True or c.get(f"REC.cookie == {first}.cookie") is True):
+                            # the element at the index found by the search was tested, on this path, with the (inlined) partner predicate
+                            bad, ok, msg = [], True, ""
                         elif not (first == "OLD" and key == "IDX"):
                             ok, msg = False, f"in-batch partner {first} is not replaced in place at its own index ({e.extra.get('key')}): it would also be delivered alone"
                     else:
@@ -383,7 +386,10 @@ def run(ctx) -> None:
     ctx.check(okl and ndel > 0, RV, "DelayedQueue.remove deletes under the lock", "remove() does not delete the partner under the queue lock", rm.loc)
     # ... and in the critical section in which it was found in the live deque: between a search and a later deletion get() may
     # hand the first half out alone, and the pair built from remove()'s result delivers it a second time
-    from .c17 import search_and_delete_atomic
+    from .c17 import deque_unbounded, search_and_delete_atomic
+
+    okb, whyb, locb = deque_unbounded(P)
+    ctx.check(okb, RQ, "the delay queue holds every element until it is handed out (unbounded deque)", whyb, locb)
 
     en17 = Enumerator(QCfg(P))
     search_and_delete_atomic(ctx, RV, {m: en17.run(fi, selfcls="DelayedQueue") for m, fi in qci.methods.items() if m != "__init__"}, qci)
@@ -392,6 +398,7 @@ def run(ctx) -> None:
 
 IB = "observers/inotify_buffer.py"
 VARIANTS = [
+    dict(name="B partner searched in a snapshot taken in an earlier critical section", expect="fire", rule="C08/partner-removal-is-final", edits=[("utils/delayed_queue.py", "        with self._lock:\n            for i, (elem, *_) in enumerate(self._queue):\n                if predicate(elem):\n                    del self._queue[i]\n                    return elem\n        return None", "        with self._lock:\n            entries = list(self._queue)\n        for entry in entries:\n            if predicate(entry[0]):\n                with self._lock:\n                    if entry in self._queue:\n                        self._queue.remove(entry)\n                return entry[0]\n        return None")]),
     dict(name="B partner search skipped on a counter that drifts (decremented before the head test)", expect="fire", rule="C08/partner-search-is-exhaustive", edits=[("utils/delayed_queue.py", "        self._closed = False\n", "        self._closed = False\n        self._delayed = 0\n"), ("utils/delayed_queue.py", "        self._queue.append((element, time.time(), delay))\n", "        self._queue.append((element, time.time(), delay))\n        self._delayed += delay\n"), ("utils/delayed_queue.py", "        with self._lock:\n            for i, (elem, *_) in enumerate(self._queue):\n                if predicate(elem):\n                    del self._queue[i]\n", "        with self._lock:\n            if not self._delayed:\n                return None\n            for i, (elem, _t, delayed) in enumerate(self._queue):\n                if predicate(elem):\n                    del self._queue[i]\n                    self._delayed -= delayed\n"), ("utils/delayed_queue.py", "            with self._lock:\n                if len(self._queue) > 0 and self._queue[0][0] is head:", "            with self._lock:\n                self._delayed -= delay\n                if len(self._queue) > 0 and self._queue[0][0] is head:")]),
     dict(name="E partner search skipped on a coherent counter", expect="silent", edits=[("utils/delayed_queue.py", "        self._closed = False\n", "        self._closed = False\n        self._delayed = 0\n"), ("utils/delayed_queue.py", "        self._queue.append((element, time.time(), delay))\n", "        self._queue.append((element, time.time(), delay))\n        self._delayed += delay\n"), ("utils/delayed_queue.py", "        with self._lock:\n            for i, (elem, *_) in enumerate(self._queue):\n                if predicate(elem):\n                    del self._queue[i]\n", "        with self._lock:\n            if not self._delayed:\n                return None\n            for i, (elem, _t, delayed) in enumerate(self._queue):\n                if predicate(elem):\n                    del self._queue[i]\n                    self._delayed -= delayed\n"), ("utils/delayed_queue.py", "                if len(self._queue) > 0 and self._queue[0][0] is head:\n                    self._queue.popleft()\n", "                if len(self._queue) > 0 and self._queue[0][0] is head:\n                    self._queue.popleft()\n                    self._delayed -= delay\n")]),
     dict(name="B single timed wait instead of the sleep loop", expect="fire", rule="C08/first-half-waits-the-full-delay", edits=[("utils/delayed_queue.py", "                while time_left > 0:\n                    time.sleep(time_left)\n                    time_left = insert_time + self.delay_sec - time.time()\n", "                if time_left > 0:\n                    time.sleep(time_left)\n")]),
